@@ -95,8 +95,6 @@ Proof.
 Qed.
 
 (* ---- path.Clean of an absolute path has no empty, "." or ".." element ---- *)
-Definition real_elem (e : list N) : Prop := e <> [] /\ is_dot e = false /\ is_dotdot e = false.
-
 Lemma clean_step_rooted_real : forall st e,
   Forall real_elem st -> Forall real_elem (clean_step true st e).
 Proof.
